@@ -116,6 +116,9 @@ func propC20(w *World, r *Report) {
 		}
 		r.Check(nW >= 2, "G4", "writes of the limiter's memory found", "-", fmt.Sprint(nW))
 	}
+	// the limiter has no lock of its own: its memory stays consistent because one goroutine - the frame loop - uses it.
+	// A use from a service goroutine makes the memory a shared location (reported by the race rule of C16)
+	linkObligationsOpt(w, r, propC16, "C16", func(o *Obligation) bool { return o.Rule == "C16.R1" && strings.Contains(o.Construct, "LogLimiter") }, "G3")
 	now := "dynamic(" + fClock + ")"
 	condA := "lt(time.Time.Sub(" + now + ", " + fTime + "), " + fInterval + ")"
 	eqArgs := []*Term{tleaf(msg), tleaf(fEntry)}
@@ -250,6 +253,9 @@ func propC20(w *World, r *Report) {
 		for _, b := range fn.Blocks {
 			for _, in := range b.Instrs {
 				if call, ok := in.(*ssa.Call); ok && call.Call.StaticCallee() == ctor {
+					if _, isParam := call.Call.Args[0].(*ssa.Parameter); isParam && fn.Parent() != nil && fn.Parent().Name() == "init" {
+						continue // a forwarding literal kept in a package variable (a test seam): its call sites carry the interval
+					}
 					n++
 					t := newTermEnv(w).termOf(call.Call.Args[0]).String()
 					r.Check(t == "60000000000", "G5", "limiter built in "+fn.Name()+" with one minute", w.InstrPos(call), t+" ns")
